@@ -1,6 +1,6 @@
 (* C01 — Generated NumPy rhs computes exactly the derivatives the model text defines.
    Theorems only; every proof is [exact <lemma of the development>]. *)
-From GX Require Import Base Expr Topo Ode Target Sem Codegen Load Valid Run Carriers Examples.
+From GX Require Import Base Expr Topo KahnSound Ode OrderSound Target Sem Codegen Load Valid Run Carriers Examples.
 Open Scope string_scope.
 Open Scope list_scope.
 
@@ -44,6 +44,22 @@ Theorem C01_eval_depends_on_occurring_variables_only :
     (forall x, In x (vars e) -> rho x = rho' x) -> eval N rho e = eval N rho' e.
 Proof. exact @eval_ext. Qed.
 Print Assumptions C01_eval_depends_on_occurring_variables_only.
+
+(* the statement order: whenever ODE.sorted_assignments (graphlib's static_order on the dependency
+   graph, mirrored instruction by instruction in Topo.v) returns an order, that order lists every
+   assignment exactly once and every assignment after all the assignments it reads - for every
+   model, every dependency shape, with and without remove_unused *)
+Theorem C01_statement_order_defines_before_use :
+  forall o ru ord,
+    sorted_names o ru = Some ord ->
+    NoDup ord
+    /\ (forall n, In n ord -> In n (all_assign_names o))
+    /\ (forall n, In n (all_assign_names o) ->
+          ru = false \/ is_inter_name o n = false \/ used o n = true -> In n ord)
+    /\ (forall pre n post, ord = pre ++ n :: post ->
+          forall d, In d (deps_of o n) -> In d (all_assign_names o) -> In d pre).
+Proof. exact sorted_names_sound. Qed.
+Print Assumptions C01_statement_order_defines_before_use.
 
 (* non-vacuity: the mirror's rhs for the example model (two components, unused intermediate,
    conditional, chain) is accepted, with and without removal of unused variables *)
